@@ -15,7 +15,8 @@ RULE = ("Cases: a catalogue of public numeric entry points x drawn signals (32..
         "hilberthuang: vector vs single column (2-D vs trailing singleton for amplitude_normalise) must agree; (lengths) "
         "hilberthuang, hilberthuang_1d, holospectrum, get_cycle_vector+mask, get_cycle_stat, phase_align, bin_by_phase: "
         "mismatched first dimensions must raise; (options) sift variants and both second-layer sifts with caller-owned option "
-        "dicts. Every call: inputs byte-identical afterwards (read-only inputs must be accepted), option dicts deepcopy-equal "
+        "dicts; (reuse) 24 routines called twice through the same array objects, the contents replaced in place in between - "
+        "the second result must equal the result on fresh copies. Every call: inputs byte-identical afterwards (read-only inputs must be accepted), option dicts deepcopy-equal "
         "afterwards, a second identical call - made after the caller has overwritten the arrays returned by the first - returns identical output. Non-trivial: every (routine, layout) evaluation that "
         "compares >= 2 accepted layouts or must reject.")
 ASSUMPTIONS = ["amplitude_normalise and hilberthuang_1d document 2-D input only: plain vectors are not demanded of them",
@@ -357,7 +358,104 @@ def oracle_options(case, rec):
     return True
 
 
+# ----------------------------------------------------------------------------
+# buffer reuse: the same array objects, new contents
+
+REUSE = ['sift', 'mask_sift/zc', 'get_next_imf', 'get_next_imf_mask', 'interp_envelope', 'get_padded_extrema',
+         'frequency_transform/hilbert', 'frequency_transform/nht', 'frequency_transform/quad', 'amplitude_normalise',
+         'quadrature_transform', 'hilberthuang', 'hilberthuang_1d', 'holospectrum', 'get_cycle_vector', 'get_cycle_vector+mask',
+         'get_cycle_stat', 'phase_align', 'bin_by_phase', 'Cycles', 'kdt_match', 'project_subset_to_samples', 'is_good',
+         'define_hist_bins_from_data']
+
+
+def reuse_entry(emd, name):
+    """(function of arrays, builder of the argument arrays from a signal)."""
+    S, SP, CY, CS = emd.sift, emd.spectra, emd.cycles, emd._cycles_support
+    edges = np.linspace(0, 3, 7)
+
+    def phase_of(x):
+        return np.mod(np.cumsum(0.3 + 0.1 * np.abs(x) / (np.abs(x).max() or 1)), 2 * np.pi)
+
+    def cyc_of(x):
+        return np.asarray(CY.get_cycle_vector(phase_of(x), return_good=False))[:, 0]
+    table = {
+        'sift': (lambda X: S.sift(X, max_imfs=3), lambda x: [x]),
+        'mask_sift/zc': (lambda X: S.mask_sift(X, max_imfs=2, nphases=2), lambda x: [x]),
+        'get_next_imf': (lambda X: S.get_next_imf(X), lambda x: [x[:, None]]),
+        'get_next_imf_mask': (lambda X: S.get_next_imf_mask(X, 0.2, 0.5, nphases=2), lambda x: [x[:, None]]),
+        'interp_envelope': (lambda X: S.interp_envelope(X, mode='combined', extrema_opts={'pad_width': 2, 'parabolic_extrema': True}), lambda x: [x]),
+        'get_padded_extrema': (lambda X: S.get_padded_extrema(X, pad_width=2, mode='troughs'), lambda x: [x]),
+        'frequency_transform/hilbert': (lambda X: SP.frequency_transform(X, 100, 'hilbert'), lambda x: [np.c_[x, x[::-1]]]),
+        'frequency_transform/nht': (lambda X: SP.frequency_transform(X, 100, 'nht'), lambda x: [np.c_[x, x[::-1]]]),
+        'frequency_transform/quad': (lambda X: SP.frequency_transform(X, 100, 'quad'), lambda x: [np.c_[x, x[::-1]]]),
+        'amplitude_normalise': (lambda X: emd.utils.amplitude_normalise(X), lambda x: [np.c_[x, x[::-1]]]),
+        'quadrature_transform': (lambda X: SP.quadrature_transform(X), lambda x: [np.c_[x, x[::-1]]]),
+        'hilberthuang': (lambda f, a: SP.hilberthuang(f, a, edges), lambda x: [np.abs(np.c_[x, x[::-1]]) * 1.5, np.abs(np.c_[x, x[::-1]])]),
+        'hilberthuang_1d': (lambda f, a: SP.hilberthuang_1d(f, a, edges), lambda x: [np.abs(np.c_[x, x[::-1]]) * 1.5, np.abs(np.c_[x, x[::-1]])]),
+        'holospectrum': (lambda f, f2, a2: SP.holospectrum(f, f2, a2, edges, edges, squash_time=False),
+                         lambda x: [np.abs(np.c_[x, x[::-1]]) * 1.5, np.abs(np.tile(x[:, None, None], (1, 2, 2))) * 1.2,
+                                    np.abs(np.tile(x[::-1][:, None, None], (1, 2, 2)))]),
+        'get_cycle_vector': (lambda p: CY.get_cycle_vector(p, return_good=True), lambda x: [phase_of(x)]),
+        'get_cycle_vector+mask': (lambda p, m: CY.get_cycle_vector(p, return_good=False, mask=m), lambda x: [phase_of(x), x > -0.5]),
+        'get_cycle_stat': (lambda c, v: CY.get_cycle_stat(c, v, func=np.sum), lambda x: [cyc_of(x), x]),
+        'phase_align': (lambda p, v: CY.phase_align(p, v, npoints=12), lambda x: [phase_of(x), x]),
+        'bin_by_phase': (lambda p, v: CY.bin_by_phase(p, v, nbins=8)[0], lambda x: [phase_of(x), x]),
+        'Cycles': (lambda p: (lambda C: (np.asarray(C.cycle_vect), np.asarray(C.metrics['is_good'])))(CY.Cycles(p)), lambda x: [phase_of(x)]),
+        'kdt_match': (lambda a, b: CY.kdt_match(a, b, K=3), lambda x: [np.c_[x[:20], x[20:40]], np.c_[x[5:30] * 1.1, x[3:28]]]),
+        'project_subset_to_samples': (lambda c, sv: CS.project_subset_to_samples(np.arange(int(sv.max()) + 1, dtype=float), sv, c),
+                                      lambda x: [cyc_of(x), (lambda k: np.where(np.arange(k) % 2 == (x[0] > 0), np.cumsum(np.arange(k) % 2 == (x[0] > 0)) - 1, -1))(int(cyc_of(x).max()) + 1)]),
+        'is_good': (lambda p: CY.is_good(p, ret_all_checks=True), lambda x: [np.sort(phase_of(x))[:12]]),
+        'define_hist_bins_from_data': (lambda X: SP.define_hist_bins_from_data(X), lambda x: [x]),
+    }
+    return table[name]
+
+
+@st.composite
+def reuse_case(draw):
+    n = draw(st.sampled_from([48, 64, 100]))
+
+    def sig():
+        return {'family': draw(st.sampled_from(['tones', 'amfm', 'noise', 'walk'])), 'n': n,
+                'k': draw(st.integers(0, 2**32 - 1)), 'p1': draw(st.floats(0, 1)), 'p2': draw(st.floats(0, 1))}
+    return {'routine': draw(st.sampled_from(REUSE)), 'sigA': sig(), 'sigB': sig()}
+
+
+def oracle_reuse(case, rec):
+    """f(buffers holding A); overwrite the same buffer objects in place with B; f(buffers) must equal f(fresh copies of B):
+    nothing keyed on the identity of an argument may survive a call."""
+    import emd
+    import warnings
+    name = case['routine']
+    f, build = reuse_entry(emd, name)
+    with warnings.catch_warnings():
+        warnings.simplefilter('ignore')
+        try:
+            A = [np.array(a) for a in build(gens.sig_of(case['sigA']))]
+            B = [np.array(b) for b in build(gens.sig_of(case['sigB']))]
+        except Exception:
+            raise Discard('argument construction failed for this signal')
+        if any(a.shape != b.shape or a.dtype != b.dtype for a, b in zip(A, B)):
+            raise Discard('the two argument sets differ in shape (data-dependent construction)')
+        try:
+            bufs = [a.copy() for a in A]
+            f(*bufs)
+            for buf, b in zip(bufs, B):
+                buf[...] = b
+            second = f(*bufs)
+            fresh = f(*[b.copy() for b in B])
+        except emd.support.EMDSiftCovergeError:
+            raise Discard('convergence error')
+        except Exception as e:
+            raise Discard('routine rejects this input: %s' % type(e).__name__)
+    if not same(second, fresh):
+        raise Violation('C19/%s/result-depends-on-an-earlier-call-through-the-same-array-objects' % name, '')
+    rec.cls('routine=' + name)
+    return True
+
+
 CLAUSES = [
+    Clause('C19.reuse', oracle_reuse, strategy=reuse_case(), quick=960, thorough=20000, shards=(8, 16),
+           nt_rule='every evaluated (routine, signal pair)'),
     Clause('C19.single', oracle_single, strategy=sig_case(SINGLE), quick=640, thorough=8000, shards=(16, 16),
            nt_rule='3 accepted layouts compared and 3 rejected layouts tried'),
     Clause('C19.vector', oracle_vector, strategy=sig_case(VECTOR), quick=720, thorough=12000, shards=(8, 16),
